@@ -138,7 +138,7 @@ theorem recover_refute (w : World) (k : Nat) (hinv : GInv w k) (hk : k + 1 < u32
       ∃ r', lookup y'.recs X.cfg.self = some r' ∧ r'.st = .alive := by
   obtain ⟨_, ha, hp, hl⟩ := accusation_facts hinv hX hy hme hr hrn hne
   obtain ⟨_, hsi, hsf, hst, _⟩ := hinv.2.1 X hX
-  obtain ⟨f1, f2, f3, f4, f5⟩ := hsf me hme
+  obtain ⟨f1, f2, f3, f4, f5, _⟩ := hsf me hme
   have hnX := nodeAt_of_mem hinv.1 hX
   have hny := nodeAt_of_mem hinv.1 hy
   have hmn : me.name = X.cfg.self := lookup_name hme
